@@ -70,9 +70,9 @@ def check(ctx: Ctx, col: Collector, tier: str) -> None:
     jfi = repo.function(API_MOD, "API.to_json_file")
     col.touched(jfi)
     jouts = ctx.interp(jfi).run_function(jfi, {"self": Sym("self"), "path": Sym("path")})
-    dumps = [e for o in jouts for e in o.effects if e.kind == "call" and e.target == "json.dump"]
+    dumps = [e for o in jouts for e in o.effects if e.kind == "call" and e.target in ("json.dump", "json.dumps")]
     okk = bool(dumps) and all(e.args and isinstance(e.args[0], App) and e.args[0].func == "self.to_dict" for e in dumps)
-    (col.ok if okk else col.bad)("C12.STORES", f"{API_MOD}::API.to_json_file", repo.loc(API_MOD, jfi.node), "json.dump(self.to_dict(), file)" if okk else f"{[repr(e) for e in dumps]}",
+    (col.ok if okk else col.bad)("C12.STORES", f"{API_MOD}::API.to_json_file", repo.loc(API_MOD, jfi.node), "the file content is json.dump(s) of self.to_dict()" if okk else f"{[repr(e) for e in dumps]}",
                                  *([] if okk else ["the API file is not json.dump of to_dict()"]))
 
     # ------------------------------------------------------------------ PAIRING
